@@ -117,6 +117,9 @@ def cases(rng, tier):
     for _ in range(400 if tier == "quick" else 5000):   # accepting and non-accepting combinations of child macro-states in one enumeration of a rule
         a, b = gen.late_sibling_pair(rng)
         cs.append(("incl %s %s" % (a.fmt(), b.fmt()), "late_sibling"))
+    for _ in range(300 if tier == "quick" else 4000):   # stored pairs pruned by the simulation preorder: the direction of the preorder matters
+        a, b = gen.sim_prune_pair(rng)
+        cs.append(("incl %s %s" % (a.fmt(), b.fmt()), "sim_prune"))
     for (a, b) in tall_family(rng, 3 if tier == "quick" else 60): cs.append(("incl %s %s" % (a.fmt(), b.fmt()), "tall_sticks"))
     for (a, b) in shared_family(rng, 1500 if tier == "quick" else 8000): cs.append(("incl %s %s" % (a.fmt(), b.fmt()), "shared_table"))
     n = 2000 if tier == "quick" else 20000
